@@ -45,6 +45,7 @@ type Run struct {
 	Viol      *Violation
 
 	shape  []string
+	sched  []uint64 // schedule hashes of the concurrent blocks of this run
 	trace  []string // rendered operations (kept short)
 	Logged *strings.Builder
 }
